@@ -491,7 +491,7 @@ class DependsWorld:
             elif k == 'swap_twice':
                 ops.append({'op': 'swap_twice', 'at': rng.randint(0, cfg['pool']), 'slot': rng.choice(slots), 'n1': rng.randrange(cfg['pool']),
                             'n2': rng.randrange(cfg['pool']), 'how1': weighted(rng, hows), 'how2': weighted(rng, [('equal', 3), ('any', 1), ('first', 1)]),
-                            'back': rng.random() < 0.35, 'poke': rng.choice([None, None] + list(leafs))})
+                            'back': rng.random() < 0.35, 'poke': rng.choice([None, None] + list(leafs)), 'once': rng.random() < 0.2})
             elif k == 'subbatch':
                 ops.append({'op': 'subbatch', 'n': rng.randrange(cfg['pool']), 'p': rng.choice(leafs), 'at': rng.randint(0, cfg['pool']),
                             'slot': rng.choice(slots), 'n2': rng.randrange(cfg['pool']), 'how': weighted(rng, [('equal', 4), ('any', 1), ('first', 1)])})
@@ -732,10 +732,13 @@ class DependsWorld:
                             setattr(pool[was], poke, counter[0])
                             leaf[was][poke] = counter[0]
                             out.stats['probe.detached_object_modified_inside_the_batch'] += 1
-                        setattr(real(h), sl, pool[n2])
+                        if op.get('once'):
+                            n2 = n1         # a single replacement; the replaced object is modified before the batch ends
+                        else:
+                            setattr(real(h), sl, pool[n2])
                     att[(h, sl)] = n2
                     ever_attached.update((n1, n2))
-                    out.stats['probe.slot_replaced_twice_in_one_batch'] += 1
+                    out.stats['probe.slot_replaced_once_in_a_batch' if op.get('once') else 'probe.slot_replaced_twice_in_one_batch'] += 1
                     if n2 == was:
                         out.stats['probe.slot_swapped_out_and_back_in_one_batch'] += 1
                     desc = (f"batch: attach N{n1}{', set N%s.%s while detached,' % (was, poke) if poke else ''} then N{n2} under {h}.{sl} "
